@@ -59,6 +59,11 @@ def cases(draw, tier="quick"):
         c["fname"] = draw(st.sampled_from(NAMES))
         # the leftover `<name>.tmp` of an earlier, interrupted attempt into the same directory
         c["stale_tmp"] = draw(st.sampled_from([None, None, 0, 1, 5000, 70000]))
+        # `wormhole receive -o NAME`
+        c["outfile"] = draw(st.sampled_from([None, None, None, "wanted.bin", "out put", c["fname"]]))
+        # the file changes under the sender after the offer was made: it grows by that many bytes, or (negative)
+        # that many bytes in it are overwritten
+        c["grow"] = draw(st.sampled_from([0, 0, 0, 0, 1, 500, 20000, -1, -300]))
     elif c["kind"] == "dir":
         c["tree"] = draw(trees())
         c["dname"] = draw(st.sampled_from(["d", "dir with space", "ünï-dir", ".hid"]))
@@ -171,6 +176,8 @@ def run_case(c):
             with open(os.path.join(sd, c["fname"]), "wb") as f:
                 f.write((bytes((k * 7 + 3) % 256 for k in range(251)) * (size // 251 + 1))[:size])
             sa.what = c["fname"]
+            if c.get("outfile"):
+                ra.output_file = c["outfile"]
             if c.get("stale_tmp") is not None:
                 with open(os.path.join(rd, c["fname"] + ".tmp"), "wb") as f:
                     f.write(b"\xee" * c["stale_tmp"])
@@ -203,6 +210,18 @@ def run_case(c):
         if c["code"] == "set":
             start_receiver()
         fault = c["fault"] if kind != "text" else "none"
+        # what the sender read = what it handed to its transit connection, record by record
+        sent_h = hashlib.sha256()
+        sent_n = [0]
+        orig_send_record = transit.Connection.send_record
+
+        def tap_send_record(self_, record):
+            if getattr(self_.transport, "owner", None) is ns and self_.state == "records":
+                sent_h.update(record)
+                sent_n[0] += len(record)
+            return orig_send_record(self_, record)
+        transit.Connection.send_record = tap_send_record
+        grown = [False]
         carried = collections.Counter()
         faulted = [None]
         ack_patched = [False]
@@ -262,6 +281,18 @@ def run_case(c):
                                 return r_
                             p.send_record = patched_s
                             replay_patched[0] = True
+            if kind == "file" and c.get("grow") and not grown[0] and started_r[0] and \
+                    ("Sending" in sa.stderr.getvalue() or "Sending" in sa.stdout.getvalue()):
+                # the offer has been made (the sender has announced what it sends); the file now changes
+                grown[0] = True
+                g = c["grow"]
+                with open(os.path.join(sd, c["fname"]), "r+b") as f:
+                    if g > 0:
+                        f.seek(0, 2)
+                        f.write(b"\xd7" * g)
+                    elif size > 0:
+                        f.seek(max(0, size // 2 - 1))
+                        f.write(b"\xd8" * min(-g, size - max(0, size // 2 - 1)))
             ev = W.enabled()
             if not ev:
                 nt = W.next_timer()
@@ -309,6 +340,12 @@ def run_case(c):
         s_ok = S is None
         r_ok = R is None
         src = fs_tree(sd)
+        if kind == "file" and grown[0]:
+            # the reference is what the sender actually read and sent
+            src = {c["fname"]: sent_h.hexdigest()}
+            res.notes["file_changed_after_offer"] += 1
+        if kind == "file" and c.get("outfile"):
+            src = {c["outfile"]: v for v in src.values()}
         dst = fs_tree(rd)
         final = {k: v for k, v in dst.items() if not (k.endswith(".tmp") and k not in src)}
         info = "kind=%s %s fault=%s@%d applied=%r sender=%s receiver=%s" % (
@@ -319,6 +356,8 @@ def run_case(c):
             # names that are not valid UTF-8: the pinned sender refuses such a tree (UnicodeEncodeError), which
             # satisfies the statement; not part of the anti-vacuity ratio
             res.notes["undecodable_name_cases:%s" % ("both-ok" if s_ok and r_ok else "refused")] += 1
+        elif faulted[0] is None and grown[0]:
+            res.notes["changed_file_cases:%s" % ("both-ok" if s_ok and r_ok else "failed")] += 1
         elif faulted[0] is None:
             # anti-vacuity only (the statement makes no liveness claim): counted, judged per run in health()
             res.notes["unfaulted_cases"] += 1
@@ -363,12 +402,17 @@ def run_case(c):
         res.nontrivial = big or faulted[0] is not None
         res.features = dict(kind=kind, fault=c["fault"], applied=faulted[0] or "-", code=c["code"],
                             listen="%d%d" % tuple(c["listen"]), relay=bool(c.get("relay")), big=big, s_ok=s_ok, r_ok=r_ok,
-                            stale_tmp=c.get("stale_tmp") is not None)
+                            stale_tmp=c.get("stale_tmp") is not None, outfile=bool(c.get("outfile")),
+                            changed=bool(grown[0]))
         res.trace = ",".join(W.trace[:200])
         res.steps = W.steps
         res.sample = dict(case={k: v for k, v in c.items() if k != "tape"}, sender=_short(S), receiver=_short(R),
                           fault_applied=faulted[0], entries=len(src))
     finally:
+        try:
+            transit.Connection.send_record = orig_send_record
+        except Exception:
+            pass
         W.close()
         shutil.rmtree(base, ignore_errors=True)
     return res
